@@ -275,6 +275,127 @@ fn run_manrace(tracer: &Tracer, rng: &mut StdRng, r: u64, tag: Value) {
     tracer.emit(json!({"ev":"end","listing":w.dir.listing(),"locks":w.dir.lock_files(),"managed":w.managed()}));
 }
 
+/// Writer hand-over between two Index instances: instance B asks for a writer from another thread while A
+/// still holds the lock (refused: LockBusy), A commits once more and drops, B asks again.  A directory gate
+/// parks B's thread right after any read of .managed.json it makes BEFORE it holds the writer lock (the code
+/// reads the list under the lock, so nothing is parked; a writer creation that reads first is held there
+/// until A has committed and dropped).  The end of the run is judged like every other run.
+fn run_handover(tracer: &Tracer, rng: &mut StdRng, tag: Value) {
+    use std::sync::atomic::{AtomicBool, Ordering};
+    use std::sync::{Arc, Condvar, Mutex};
+    use std::time::Duration;
+    tracer.reset_canon();
+    let mut cfg = Cfg::default();
+    cfg.threads = 1;
+    cfg.flush_after = pick(rng, &[1u32, 2]);
+    cfg.merge = "none".into();
+    tracer.emit(json!({"ev":"reset","cfg":cfg.to_json(),"tag":tag}));
+    let mut w = World::new_quiet(tracer, &cfg, false);
+    install_sink(tracer, w.regs.clone(), None);
+    w.exec(&json!({"op":"open_second"}));
+    w.exec(&json!({"op":"new_writer"}));
+    let mut next_id = 1u64;
+    for _ in 0..rng.random_range(2..4u32) {
+        w.exec(&json!({"op":"add","id":next_id,"t":pick(rng, &["a","b"]),"v":next_id as i64}));
+        next_id += 1;
+    }
+    w.exec(&json!({"op":"commit"}));
+    // (parked, released)
+    let st = Arc::new((Mutex::new((false, false)), Condvar::new()));
+    let st2 = st.clone();
+    let lock_held_by_b = Arc::new(AtomicBool::new(false));
+    let lh = lock_held_by_b.clone();
+    w.dir.set_gate(Some(Arc::new(move |op: &vh::simdir::OpInfo, after: bool| {
+        if op.role != "handover-b" {
+            return;
+        }
+        if op.op == "open_write" && op.path == ".tantivy-writer.lock" && after {
+            lh.store(true, Ordering::SeqCst);
+        }
+        if op.op == "atomic_read" && op.path == ".managed.json" && after && !lh.load(Ordering::SeqCst) {
+            let (m, cv) = &*st2;
+            let mut g = m.lock().unwrap();
+            if !g.0 {
+                g.0 = true;
+                cv.notify_all();
+                let t0 = std::time::Instant::now();
+                while !g.1 && t0.elapsed() < Duration::from_secs(5) {
+                    let (g2, _) = cv.wait_timeout(g, Duration::from_millis(10)).unwrap();
+                    g = g2;
+                }
+            }
+        }
+    })));
+    let b = w.other.clone().expect("second instance");
+    let threads = cfg.threads;
+    let first_refused = Arc::new(AtomicBool::new(false));
+    let fr = first_refused.clone();
+    let h = std::thread::Builder::new()
+        .name("handover-b".into())
+        .spawn(move || {
+            let mut tries = 0u32;
+            loop {
+                tries += 1;
+                let r: tantivy::Result<tantivy::IndexWriter> = b.writer_with_num_threads(threads, 15_000_000 * threads);
+                match r {
+                    Ok(wr) => return (Some(wr), tries),
+                    Err(_) => {
+                        fr.store(true, Ordering::SeqCst);
+                        if tries > 400 {
+                            return (None, tries);
+                        }
+                        std::thread::sleep(Duration::from_millis(5));
+                    }
+                }
+            }
+        })
+        .unwrap();
+    // wait until B was refused once or is parked after an early read of the managed list
+    let t0 = std::time::Instant::now();
+    while !first_refused.load(Ordering::SeqCst) && !st.0.lock().unwrap().0 && t0.elapsed() < Duration::from_secs(3) {
+        std::thread::sleep(Duration::from_millis(2));
+    }
+    let parked = st.0.lock().unwrap().0;
+    // A goes on: one more commit with new files, then the writer is given up (its merges are over: none)
+    for _ in 0..rng.random_range(1..3u32) {
+        w.exec(&json!({"op":"add","id":next_id,"t":pick(rng, &["a","b","c"]),"v":next_id as i64}));
+        next_id += 1;
+    }
+    w.exec(&json!({"op":"commit"}));
+    w.exec(&json!({"op":"wait_merges"}));
+    {
+        let (m, cv) = &*st;
+        m.lock().unwrap().1 = true;
+        cv.notify_all();
+    }
+    let (bw, tries) = h.join().unwrap_or((None, 0));
+    w.dir.set_gate(None);
+    tracer.emit(json!({"ev":"schedule","name":"writer hand-over to a second Index instance that asked while the first still held the lock","realised":bw.is_some(),"refused_first":first_refused.load(Ordering::SeqCst),"read_the_list_before_the_lock":parked,"tries":tries}));
+    w.exec(&json!({"op":"switch_index"}));
+    match bw {
+        Some(wr) => {
+            wr.set_merge_policy(w.merge_policy());
+            let op = wr.commit_opstamp();
+            w.writer = Some(wr);
+            tracer.emit(json!({"ev":"new_writer","ok":true,"commit_opstamp":op}));
+        }
+        None => {
+            w.exec(&json!({"op":"new_writer"}));
+        }
+    }
+    w.exec(&json!({"op":"add","id":next_id,"t":"c","v":0}));
+    w.exec(&json!({"op":"commit"}));
+    w.exec(&json!({"op":"merge"}));
+    w.exec(&json!({"op":"gc"}));
+    w.exec(&json!({"op":"wait_merges"}));
+    w.exec(&json!({"op":"new_writer"}));
+    w.exec(&json!({"op":"gc"}));
+    w.exec(&json!({"op":"wait_merges"}));
+    w.exec(&json!({"op":"observe"}));
+    tantivy::verif::set_sink(None);
+    tracer.emit(json!({"ev":"end","listing":w.dir.listing(),"locks":w.dir.lock_files(),"managed":w.managed()}));
+}
+
 fn run_gcrace(tracer: &Tracer, rng: &mut StdRng, r: u64, tag: Value) {
     use std::sync::{Arc, Condvar, Mutex};
     use std::time::Duration;
@@ -482,6 +603,10 @@ fn main() {
             // two workers registering files at the same time (one parked before its .managed.json replacement)
             for r in 0..a.num("manrace", 3) {
                 run_manrace(&tracer, &mut rng, r, json!({"seed":seed,"run":r,"manrace":true}));
+            }
+            // the writer handed over to a second Index instance that asked for it while the first held the lock
+            for r in 0..a.num("handover", 3) {
+                run_handover(&tracer, &mut rng, json!({"seed":seed,"run":r,"handover":true}));
             }
         }
         "producers" => {
